@@ -186,6 +186,14 @@ def build_model(area, timeout=1200):
     with Lock("ml_" + area):
         if os.path.exists(exe) and os.path.exists(stamp) and open(stamp).read() == key:
             return True, exe, "cached"
+        # the Model files the extraction imports must be compiled (they need not be dependencies of the Props file)
+        names = []
+        for m in re.finditer(r"From PNA Require (?:Import|Export)\s+([^.]*)\.", strip_comments(open(ex).read())):
+            names += m.group(1).split()
+        targets = ["Model/%s.vo" % n for n in names if os.path.exists(os.path.join(COQ, "Model", n + ".v"))]
+        ok, log = coq_make(targets)
+        if not ok:
+            return False, exe, log
         shutil.rmtree(d, ignore_errors=True)
         os.makedirs(d)
         rc, out = sh(["coqc", "-q", "-Q", COQ, "PNA", "-w", "-all", ex], cwd=d, timeout=timeout)
